@@ -39,8 +39,9 @@ class Outcome:
     detail: Any = None  # free-form description for reports (only used on concrete runs)
 
 
-class Precondition(Exception):
-    """Raised by a scenario when the symbolic inputs are outside the obligation's assumptions."""
+class Precondition(BaseException):
+    """Raised by a scenario when the symbolic inputs are outside the obligation's assumptions.
+    (BaseException so that `except Exception` clauses of harness or code under test cannot swallow it.)"""
 
 
 # --------------------------------------------------------------------------------------
